@@ -100,7 +100,8 @@ class Script:
        group ('each' | 'flight' | 'pairs': how whole handshake messages are grouped into records),
        hs_secrets (bool, TLS 1.3: handshake secrets present in the key log), warn_alert (bool, ≤ TLS 1.2 full handshake:
        a clear-text warning alert precedes the ServerHello; the connection continues), pad13 (callable rng→pad length),
-       tickets (int, post-handshake NewSessionTicket records, TLS 1.3), offer (list of extra suite codes offered)."""
+       tickets (int, post-handshake NewSessionTicket records, TLS 1.3), offer (list of extra suite codes offered),
+       frag13 (bool, TLS 1.3: the protected handshake flights are cut into records at arbitrary byte positions)."""
 
     def __init__(self, version, code, app, rng, **shape):
         self.v, self.code, self.app, self.rng, self.shape = version, code, list(app), rng, shape
@@ -204,6 +205,12 @@ class Script:
         else:
             groups = [msgs]
         out = b""
+        if protected and self.v == "tls13" and self.shape.get("frag13") and len(b"".join(msgs)) > 8:
+            # RFC 8446 5.1: handshake messages may be fragmented across records and coalesced arbitrarily — cut the
+            # flight's message stream at random byte positions (message boundaries are not respected)
+            stream = b"".join(msgs)
+            cuts = sorted(self.rng.sample(range(1, len(stream)), min(len(stream) - 1, self.rng.choice([1, 1, 2, 3]))))
+            groups = [[stream[a:b]] for a, b in zip([0] + cuts, cuts + [len(stream)])]
         for g in groups:
             body = b"".join(g)
             if protected:
